@@ -144,13 +144,18 @@ def replace_subgroups(
 
         selection = selections.pop(field.name)
         if isinstance(selection, dict):
+            # Only members *below* this one are selected: keep the current member.
+            keep_member = keyword not in selection and is_dataclass_instance(field_value)
             value_of_selection = selection.pop(keyword, None)
             child_selections = selection
         else:
+            keep_member = False
             value_of_selection = selection
             child_selections = None
 
-        if is_dataclass_type(value_of_selection):
+        if keep_member:
+            pass
+        elif is_dataclass_type(value_of_selection):
             field_value = value_of_selection()
         elif is_dataclass_instance(value_of_selection):
             field_value = copy.deepcopy(value_of_selection)
